@@ -70,6 +70,8 @@ def ledger(ctx, taint, rule, scope=None):
                 g = T.guarded_index(s, taint)
             elif s.kind in ("call:unwrap", "call:expect"):
                 g = T.guarded_unwrap(s, taint)
+            elif s.kind == "call:from_bytes":
+                g = T.guarded_from_bytes(s, taint)
             if not g:
                 g = T.range_discharge(s, taint, s.tys)
         except Exception as ex:
